@@ -136,8 +136,14 @@ def run(tier):
                         t, line = m.group(1), m.group(2)      # the hunk header links path and position together
                     kind = ("num" if t.isdigit() else "path" if _PATH.match(t) else
                             "commit" if re.fullmatch(r"[0-9a-f]{7,40}", t) else "other")
+                    # the file a link on a path must point to is the file of that name in the input (its path from the
+                    # repository root), however the path is displayed (relative to the user's directory, ...)
+                    # (a diffstat line names its own path, which need not be one of the diff's files)
+                    fid = (next((f for f, nm in gitskin.FILES.items() if os.path.basename(t) == nm), None)
+                           if kind == "path" and p["t"] in ("fileHdr", "hunkHdr") else None)
                     lks.append({"text": t, "url": url, "kind": kind, "line": line,
-                                "abs": os.path.normpath(os.path.join(base, t)) if kind == "path" else ""})
+                                "abs": (os.path.normpath(os.path.join(root, gitskin.bare_path(fid, {}))) if fid
+                                        else os.path.normpath(os.path.join(base, t))) if kind == "path" else ""})
                 k = p["t"] if p["t"] in ("fileHdr", "hunkHdr", "commit") else ("code" if p["t"] in ("minus", "plus", "zero") else "other")
                 rows.append({"k": k, "abs": os.path.normpath(os.path.join(base, hhpath)) if hhpath else "", "links": lks})
             links.append({"run": i, "parts": TEMPLATES[tname][1], "cparts": CTEMPLATES[ct][1], "cwd": root, "host": host, "rows": rows})
